@@ -80,7 +80,7 @@ def main():
     finally:
         if demo and os.path.exists(demo):
             os.remove(demo)
-        sh("git checkout -- . && git clean -fdq -- vaporetto/tests vaporetto_rules/tests vaporetto_tantivy/tests predict/tests evaluate/tests train/tests manipulate_model/tests convert_kytea_model/tests", cwd=REPO)
+        sh("git checkout -- . && git clean -fdq", cwd=REPO)
         json.dump(result, open(os.path.join(d, "result.json"), "w"), indent=1, ensure_ascii=False)
         print(json.dumps(result, indent=1, ensure_ascii=False)[:3000])
 
